@@ -362,14 +362,16 @@ pub fn run(kv: &Args) -> i32 {
         // are 0 (its first points are the hash-to-curve points themselves); case 2: all-one choice bits; case 3: the
         // sender's first ephemeral scalars are 0 (it sends the point at infinity, encoded as 33 zero bytes)
         //   case 4: the receiver's hash-to-curve partner point r_other of instances 0 and 3 is the point at infinity (a zero
-        //   32-byte draw where ProjectivePoint::random takes its scalar: block 1 + 256 + i), sent as 33 zero bytes;
+        //   32-byte draw where ProjectivePoint::random takes its scalar), sent as 33 zero bytes;
         //   case 0 (from the sixth case on): the sender's two draws of instance 0 and of instance 255 are exactly the group
         //   order (not a canonical scalar: redrawn; a reduction instead of a rejection would give 0)
+        // receiver stream layout: 32 choice-bit bytes drawn as 32 words (128 stream bytes), then 256 x 32-byte ephemeral
+        // scalars from offset 128, then 256 x 32-byte scalars of ProjectivePoint::random (r_other) from offset 8320
         let (rt, st) = match case % 5 {
-            1 => ("#zero96", ""),
-            2 => ("#ones32", ""),
+            1 => ("#zero128@0+zero64@128", ""),
+            2 => ("#ones128@0", ""),
             3 => ("", "#zero64"),
-            4 => ("#zero32@8224+zero32@8320", ""),
+            4 => ("#zero32@8320+zero32@8416", ""),
             _ if case >= 5 => ("", "#order2@0+order2@16384"),
             _ => ("", ""),
         };
